@@ -606,7 +606,7 @@ func (s *UnionSDF2) Evaluate(p v2.Vec) float64 {
 		if i == minIndex {
 			continue
 		}
-		if d > 0 && vs[i] >= d*d*(1+epsilon) {
+		if d > 0 && vs[i] > 0 && vs[i] >= d*d*(1+epsilon) {
 			continue
 		}
 		if d <= 0 && vs[i] > 0 {
